@@ -13,6 +13,7 @@ package stdoutw
 import (
 	"encoding/json"
 	"fmt"
+	sfactory "github.com/Nextdoor/pg-bifrost.git/transport/transporters/stdout"
 	"math/rand"
 	"os"
 	"strings"
@@ -46,7 +47,11 @@ type Case struct {
 	ID         int     `json:"id"` // worker id (printed in front of every record)
 	Batches    []Batch `json:"batches"`
 	CloseInput bool    `json:"close_input,omitempty"` // the input channel is closed after the last batch
-	Queue      int     `json:"queue,omitempty"`       // capacity of the worker's input channel (batch-queue-depth): later batches wait there
+	// Workers > 1: the workers are built by the production factory stdout.New (what transport/factory calls for
+	// the stdout sink) over that many queues and started as manager.StartTransporterGroup starts them; batch k
+	// is put on queue k mod Workers: every queue must be served by the worker of its own index
+	Workers int `json:"workers,omitempty"`
+	Queue   int `json:"queue,omitempty"` // capacity of the worker's input channel (batch-queue-depth): later batches wait there
 }
 
 type obs struct {
@@ -212,6 +217,73 @@ func run(c Case) obs {
 	return o
 }
 
+// runFactory: the production factory path.  One healthy batch per step, round-robin over the queues.
+func runFactory(c Case) (o obs, unserved []int, wrongID []string) {
+	stdoutMu.Lock()
+	defer stdoutMu.Unlock()
+	r, w, err := os.Pipe()
+	if err != nil {
+		o.infra = err.Error()
+		return
+	}
+	defer r.Close()
+	rfd := int(r.Fd())
+	if err := syscall.SetNonblock(rfd, true); err != nil {
+		o.infra = err.Error()
+		return
+	}
+	_, _, _ = syscall.Syscall(syscall.SYS_FCNTL, w.Fd(), 1031 /* F_SETPIPE_SZ */, 1<<20)
+	saved := os.Stdout
+	os.Stdout = w
+	defer func() { os.Stdout = saved; w.Close() }()
+	sh := shutdown.NewShutdownHandler()
+	defer sh.CancelFunc()
+	written := make(chan *ordered_map.OrderedMap)
+	statsCh := make(chan stats.Stat, 1<<12)
+	queues := make([]chan transport.Batch, c.Workers)
+	ins := make([]<-chan transport.Batch, c.Workers)
+	for i := range queues {
+		queues[i] = make(chan transport.Batch, 1)
+		ins[i] = queues[i]
+	}
+	for _, t := range sfactory.New(sh, written, statsCh, c.Workers, ins) {
+		go func(t transport.Transporter) {
+			defer func() { _ = recover() }()
+			t.StartTransporting()
+		}(*t)
+	}
+	o.linesAtReport = make([][]string, len(c.Batches))
+	o.reported = make([]bool, len(c.Batches))
+	o.reportTxns = make([]string, len(c.Batches))
+	for k, b := range c.Batches {
+		q := k % c.Workers
+		gb := gbatch.NewGenericBatch("pk", 1<<20)
+		for i, rec := range b.Recs {
+			_, _ = gb.Add(&marshaller.MarshalledMessage{Operation: "INSERT", Json: []byte(rec), TimeBasedKey: b.Key, Transaction: strings.Split(b.Key, "-")[0], WalStart: uint64(i)})
+		}
+		queues[q] <- gb // capacity 1 and one batch at a time: never blocks
+		select {
+		case <-written:
+			o.reported[k] = true
+			o.linesAtReport[k] = lines(readAvailable(rfd))
+			for _, l := range o.linesAtReport[k] {
+				if !strings.HasPrefix(l, fmt.Sprintf("%d: ", q)) {
+					wrongID = append(wrongID, fmt.Sprintf("batch %d on queue %d printed %.60q", k, q, l))
+				}
+			}
+		case <-time.After(3 * time.Second):
+			// nobody took the batch off queue q (or took it and never reported)
+			unserved = append(unserved, q)
+			select {
+			case <-queues[q]:
+			default:
+			}
+		}
+	}
+	o.terminated = sh.TerminateCtx.Err() != nil
+	return
+}
+
 func monitor(c Case, o obs) []core.Violation {
 	var vs []core.Violation
 	add := func(p, sig, what string) {
@@ -289,7 +361,37 @@ func gen(rng *rand.Rand) Case {
 	if rng.Intn(2) == 0 {
 		c.Queue = 1 + rng.Intn(3) // drawn last
 	}
+	if c.Mode == "healthy" && rng.Intn(5) == 0 {
+		c.Mode, c.Workers, c.Queue = "factory", 2+rng.Intn(3), 0
+	}
 	return c
+}
+
+// evaluate: one case through the single-worker path or (Workers > 1) through the production factory
+func evaluate(c Case) (obs, []core.Violation) {
+	if c.Workers <= 1 {
+		o := run(c)
+		return o, monitor(c, o)
+	}
+	judge := func() (obs, []core.Violation) {
+		o, unserved, wrong := runFactory(c)
+		var vs []core.Violation
+		if len(unserved) > 0 {
+			vs = append(vs, core.Violation{Property: "C04", Signature: "stdout/factory-queue-not-served", Case: c,
+				What: fmt.Sprintf("stdout.New with %d workers: a batch put on queue(s) %v was not printed and reported within 3 s although every worker is healthy: no worker serves that queue, its batches never reach the sink and are never reported written", c.Workers, unserved)})
+		}
+		if len(wrong) > 0 {
+			vs = append(vs, core.Violation{Property: "C04", Signature: "stdout/factory-queue-served-by-another-worker", Case: c, What: strings.Join(wrong, "; ")})
+		}
+		return o, vs
+	}
+	o, vs := judge()
+	if len(vs) > 0 { // a time bound: confirm
+		if _, vs2 := judge(); len(vs2) == 0 {
+			vs = nil
+		}
+	}
+	return o, vs
 }
 
 func init() {
@@ -298,21 +400,21 @@ func init() {
 		if err := json.Unmarshal(cs, &c); err != nil {
 			return "bad case: " + err.Error()
 		}
-		o := run(c)
+		o, mvs := evaluate(c)
 		var sb strings.Builder
 		fmt.Fprintf(&sb, "reported=%v terminated=%v returned=%v infra=%q\n", o.reported, o.terminated, o.returned, o.infra)
 		for i, l := range o.linesAtReport {
 			fmt.Fprintf(&sb, "batch %d at report: %q txns %q\n", i, l, o.reportTxns[i])
 		}
-		for _, v := range monitor(c, o) {
+		for _, v := range mvs {
 			fmt.Fprintf(&sb, "MONITOR %s [%s]: %s\n", v.Property, v.Signature, v.What)
 		}
 		return sb.String()
 	}, Run: func(rng *rand.Rand, n int, corpusDir string, rep *core.Report) string {
-		rep.Rule = "monitor-only: the real stdout worker with real GenericBatches (1-5 batches of 1-5 records: JSON with spaces, percent signs, UTF-8, up to 300 bytes), os.Stdout replaced by a pipe; half of the cases give the worker an input queue of capacity 1-3 that a feeder keeps full (batch-queue-depth: later batches are already waiting when the worker finishes one); faults: a batch of another type (panic inside the worker), input channel closed. Checked at the moment each written report arrives: every record of the batch is already printed (C01), exactly the batch's records in order with the worker id in front (C04), report = the batch's transactions; after a fault: termination raised, worker returned, nothing reported (C17). Non-trivial: every case."
+		rep.Rule = "monitor-only: the real stdout worker with real GenericBatches (1-5 batches of 1-5 records: JSON with spaces, percent signs, UTF-8, up to 300 bytes), os.Stdout replaced by a pipe; half of the cases give the worker an input queue of capacity 1-3 that a feeder keeps full (batch-queue-depth: later batches are already waiting when the worker finishes one); one healthy case in five builds 2-4 workers through the production factory stdout.New and puts batch k on queue k mod workers (every queue must be served, by the worker of its index); faults: a batch of another type (panic inside the worker), input channel closed. Checked at the moment each written report arrives: every record of the batch is already printed (C01), exactly the batch's records in order with the worker id in front (C04), report = the batch's transactions; after a fault: termination raised, worker returned, nothing reported (C17). Non-trivial: every case."
 		for i := 0; i < n; i++ {
 			c := gen(rng)
-			o := run(c)
+			o, mvs := evaluate(c)
 			if o.infra != "" {
 				core.Bump(rep, "dropped:infrastructure")
 				continue
@@ -325,7 +427,10 @@ func init() {
 			if len(rep.Samples) < 2 {
 				rep.Samples = append(rep.Samples, c)
 			}
-			rep.Violations = append(rep.Violations, monitor(c, o)...)
+			if c.Workers > 1 {
+				core.Bump(rep, fmt.Sprintf("factory-workers:%d", c.Workers))
+			}
+			rep.Violations = append(rep.Violations, mvs...)
 		}
 		return "(* STDOUT has no model-side cases: monitor only *)\n"
 	}})
